@@ -151,6 +151,54 @@ def run_real(env, case):
                 extra["ret"] = r
             elif op == "reapply":
                 obj._SyncObj__doApplyCommand(env.cmds.to_bytes(case["entry"][0]))
+            elif op == "appendmsg":
+                so.monotonicTime = lambda: 1000.0
+                x = case["extra"]
+                obj._SyncObj__votedForNodeId = None if x["votedFor"] is None else L.nid(x["votedFor"])
+                obj._SyncObj__votesCount = x["votes"]
+                obj._SyncObj__raftElectionDeadline = 5.0
+                jr = env.P("raftLog")
+                calls = {"tv": [], "commit": []}
+                otv, oc = jr.setTermAndVote, jr.setRaftCommitIndex
+                jr.setTermAndVote = lambda t, v: (calls["tv"].append([t, None if v is None else L.nnum(v)]), otv(t, v))[1]
+                jr.setRaftCommitIndex = lambda c: (calls["commit"].append(c), oc(c))[1]
+                m = {"type": "append_entries", "term": case["term"], "commit_index": case["commit"]}
+                k = case["kind"]
+                if "regular" in k:
+                    r = k["regular"]
+                    if r.get("prev") is not None:
+                        m["prevLogIdx"], m["prevLogTerm"] = r["prev"]
+                    else:
+                        m["prevLogIdx"], m["prevLogTerm"] = None, None
+                    if r.get("chunk") is not None:
+                        m["transmission"] = r["chunk"][0]
+                        m["data"] = env.spans_bytes(r["chunk"][1])
+                    else:
+                        m["entries"] = [env.entry_real(e) for e in r.get("entries", [])]
+                else:
+                    sn = k["snap"]
+                    if sn is None:
+                        m["serialized"] = None
+                    else:
+                        m["serialized"] = (b"chunk", False, sn != "notlast")
+                        env.ser.setTransmissionData = (lambda d: False) if sn == "notlast" else (lambda d: True)
+                        if sn == "broken":
+                            def boom():
+                                raise IOError("damaged dump")
+                            env.ser.deserialize = boom
+                        elif sn != "notlast":
+                            data = (None, env.entry_real(sn["lastE"]), env.entry_real(sn["prevE"]),
+                                    set(N(i) for i in sn["cluster"]))
+                            env.ser.deserialize = lambda: data
+                try:
+                    obj._SyncObj__onMessageReceived(N(case["from"]), m)
+                finally:
+                    v = obj._SyncObj__votedForNodeId
+                    extra["x"] = {"votedFor": None if v is None else L.nnum(v), "votes": obj._SyncObj__votesCount}
+                    extra["obs"] = {"deadline": obj._SyncObj__raftElectionDeadline != 5.0,
+                                    "termVote": calls["tv"][-1] if calls["tv"] else None,
+                                    "commit": calls["commit"][-1] if calls["commit"] else None,
+                                    "ncalls": [len(calls["tv"]), len(calls["commit"])]}
             elif op == "journalfold":
                 # first tick after a start: the `__needLoadDumpFile` block of `_onTick` (no dump file configured)
                 so.monotonicTime = lambda: 1000.0
@@ -247,6 +295,22 @@ def driver_line(env, case, real):
                 "cluster": case["cluster"], "dyn": case["conf"]["dyn"]}
     if op == "reapply":
         return {"op": op, "state": js, "entry": ent(case["entry"])}
+    if op == "appendmsg":
+        k = case["kind"]
+        if "regular" in k:
+            r = k["regular"]
+            kk = {"prev": r.get("prev")}
+            if r.get("chunk") is not None:
+                kk["chunk"] = [r["chunk"][0], [[ent(e), p_, n_] for (e, p_, n_) in r["chunk"][1]]]
+            else:
+                kk["entries"] = [ent(e) for e in r.get("entries", [])]
+            kj = {"regular": kk}
+        else:
+            sn = k["snap"]
+            kj = {"snap": sn if (sn is None or isinstance(sn, str)) else
+                  {"prevE": ent(sn["prevE"]), "lastE": ent(sn["lastE"]), "cluster": sn["cluster"]}}
+        return {"op": op, "conf": case["conf"], "state": js, "extra": case["extra"], "from": case["from"],
+                "term": case["term"], "commit": case["commit"], "kind": kj}
     if op == "journalfold":
         return {"op": op, "state": js, "dyn": case["conf"]["dyn"]}
     if op == "capture":
@@ -294,7 +358,14 @@ def compare(env, case, real, model):
         if rn != model["next"]:
             return "nextIndex: impl %s model %s" % (rn, model["next"])
         return None
-    if merr is not None and op != "fappend":
+    if op == "appendmsg":
+        if model.get("extra") != real["extra"].get("x"):
+            return "votedFor/votes: impl %s model %s" % (real["extra"].get("x"), model.get("extra"))
+        ro = dict(real["extra"]["obs"])
+        ro.pop("ncalls", None)
+        if model.get("obs") != ro:
+            return "side observations (deadline re-armed, stored term/vote, stored commit): impl %s model %s" % (ro, model.get("obs"))
+    if merr is not None and op not in ("fappend", "appendmsg"):
         return None
     if op == "capture":
         if real["extra"].get("cluster") != model.get("cluster"):
@@ -806,6 +877,93 @@ class Gen(object):
         members = r.sample([1, 2, 3, 4, 5], r.randint(0, 4))
         return self.fappend_case(log, prev, es, dyn=r.random() < 0.7, members=members, self_id=r.choice([0, 0, None]))
 
+    # ---------------------------------------------------------------- the whole append_entries handler
+    def env_case(self, st, kind, term, commit, src=1, extra=None, dyn=False):
+        return {"op": "appendmsg", "conf": conf(dyn=dyn), "state": st, "from": src, "term": term, "commit": commit,
+                "kind": kind, "extra": extra or {"votedFor": None, "votes": 0}}
+
+    def env_state(self, log, role=0, leader=1, term=5, commit=None, la=None, members=(1, 2), wr=(), wc=(), buf=None):
+        last = log[-1][1] if log else 0
+        first = log[0][1] if log else 1
+        return blank_state(role=role, leader=leader, term=term, log=log, commit=first if commit is None else commit,
+                           lastApplied=first if la is None else la, members=list(members), connected=[1],
+                           next=[[d, last + 1] for d in members], match=[[d, 0] for d in members],
+                           waitReply=[list(x) for x in wr], waitCommit=[list(x) for x in wc], buf=buf,
+                           noop=last if role == 2 else None)
+
+    def sys_env(self):
+        cases = []
+        mk = self.cmd
+        log = self.log(1, [1, 5, 6, 7], terms=[0, 1, 1, 2])
+        new2 = [[mk("reg", size=4), 5, 5], [mk("reg", size=5), 6, 5]]
+        kinds = [
+            ("heartbeat", {"regular": {"prev": [4, 2], "entries": []}}, 4),
+            ("append", {"regular": {"prev": [4, 2], "entries": new2}}, 6),
+            ("conflict", {"regular": {"prev": [2, 1], "entries": [[mk("reg", size=9), 3, 4]]}}, 3),
+            ("mismatch", {"regular": {"prev": [4, 3], "entries": new2}}, None),
+            ("beyond", {"regular": {"prev": [9, 2], "entries": new2}}, None),
+            ("noprev", {"regular": {"prev": None, "entries": []}}, None),
+            ("snap-none", {"snap": None}, None),
+            ("snap-notlast", {"snap": "notlast"}, None),
+            ("snap-broken", {"snap": "broken"}, None),
+        ]
+        for (name, kind, last_new) in kinds:
+            for term in (4, 5, 6):
+                for role in (0, 1, 2):
+                    for leader in (1, 2, None):
+                        commits = [1] if last_new is None else [1, 2, last_new - 1, last_new, last_new + 1, 50]
+                        for lc in commits:
+                            for commit in (1, 3):
+                                st = self.env_state(log, role=role, leader=leader, term=5, commit=commit, la=1,
+                                                    wr=[(7, 300), (2, 301)] if leader != 1 or term == 4 else [(3, 302)])
+                                x = {"votedFor": self.rng.choice([None, 0, 1, 2]), "votes": self.rng.randint(0, 3)}
+                                cases.append(self.env_case(st, kind, term, lc, extra=x))
+        # chunks through the envelope
+        e = [mk("reg", size=30), 5, 5]
+        full = len(self.env.pickle.dumps(self.env.entry_real(e)))
+        for term in (4, 5, 6):
+            for lc in (1, 5, 9):
+                st = self.env_state(log, term=5)
+                cases.append(self.env_case(st, {"regular": {"prev": [4, 2], "chunk": ["start", [[e, 0, 20]]]}}, term, lc))
+                st = self.env_state(log, term=5, buf=[[e, 0, 20]])
+                cases.append(self.env_case(st, {"regular": {"prev": [4, 2], "chunk": ["finish", [[e, 20, full - 20]]]}}, term, lc))
+                cases.append(self.env_case(st, {"regular": {"prev": [4, 2], "chunk": ["finish", [[e, 20, 5]]]}}, term, lc))
+                st = self.env_state(log, term=5, buf=None)
+                cases.append(self.env_case(st, {"regular": {"prev": [4, 2], "chunk": ["process", [[e, 20, 5]]]}}, term, lc))
+        # complete snapshots: installed / kept because applied / kept because the last entry is held / empty journal
+        pe, le = [mk("reg", size=6), 8, 3], [mk("reg", size=7), 9, 3]
+        held = [mk("reg", size=7), 4, 2]
+        for dyn in (False, True):
+            for (pE, lE, la) in ((pe, le, 1), (pe, le, 9), (pe, le, 12), ([mk("reg", size=3), 3, 1], log[3], 1),
+                                 ([mk("reg", size=3), 3, 1], [held[0], 4, 7], 1)):
+                for cluster in ([0, 1, 2], [0, 2, 3], [0]):
+                    for term in (4, 5, 6):
+                        for lc in (1, lE[1] - 1, lE[1], lE[1] + 3):
+                            for wc in ((), ((3, 1, 400), (9, 3, 401), (9, 3, 402), (10, 3, 403), (2, 1, 404))):
+                                st = self.env_state(log, term=5, la=la, commit=min(la, 4) if la <= 4 else 1, wc=wc,
+                                                    leader=self.rng.choice([1, 2, None]), wr=[(4, 310)])
+                                kind = {"snap": {"prevE": pE, "lastE": lE, "cluster": cluster}}
+                                cases.append(self.env_case(st, kind, term, lc, dyn=dyn))
+        cases.append(self.env_case(self.env_state([], term=5), {"snap": {"prevE": pe, "lastE": le, "cluster": [0, 1]}}, 5, 3))
+        cases.append(self.env_case(self.env_state([], term=5), {"regular": {"prev": [1, 0], "entries": []}}, 6, 3))
+        return cases
+
+    def rnd_env(self):
+        r = self.rng
+        base = self.rnd_fappend()
+        st = base["state"]
+        st["role"] = r.choice([0, 0, 1, 2])
+        st["leader"] = r.choice([1, 1, 2, None])
+        st["waitReply"] = [[r.randint(1, 9), 500 + i] for i in range(r.randint(0, 3))]
+        st["waitReply"] = [list(x) for x in dict((k, v) for k, v in st["waitReply"]).items()]
+        last = st["log"][-1][1]
+        st["commit"] = r.randint(st["log"][0][1], last)
+        kind = {"regular": {"prev": base["prev"], "entries": base.get("entries", [])}}
+        x = {"votedFor": r.choice([None, 0, 1, 2]), "votes": r.randint(0, 3)}
+        lastnew = (base["prev"][0] if base["prev"] else last) + len(base.get("entries", []))
+        lc = r.choice([st["commit"] - 1, st["commit"], lastnew - 1, lastnew, lastnew + 1, last + 5])
+        return self.env_case(st, kind, st["term"] + r.choice([-1, 0, 0, 1, 2]), max(lc, 0), extra=x, dyn=base["conf"]["dyn"])
+
     # ---------------------------------------------------------------- journal fold at start-up / dump cluster
     def mem_log(self, first, kinds, terms=None):
         out = []
@@ -937,13 +1095,43 @@ def classify(case, real, model):
             tags.append("fappend:truncated")
         if any(o[0] in ("addNode", "dropNode") for o in model["out"]):
             tags.append("fappend:membership-effect")
+    if op == "appendmsg":
+        st = case["state"]
+        if case["term"] < st["term"]:
+            tags.append("env:stale-term")
+        else:
+            tags.append("env:term-adopted" if case["term"] > st["term"] else "env:term-equal")
+            tags.append("env:role-%d" % st["role"])
+            tags.append("env:leader-same" if st["leader"] == case["from"] else ("env:leader-none" if st["leader"] is None else "env:leader-changed"))
+            if st["leader"] != case["from"] and st["waitReply"]:
+                tags.append("env:callbacks-leader-changed")
+            if "state" in model and model["state"]["commit"] > st["commit"]:
+                tags.append("env:commit-raised")
+            elif (model.get("obs") or {}).get("commit") is not None:
+                tags.append("env:commit-kept")
+            k = case["kind"]
+            if "snap" in k:
+                sn = k["snap"]
+                if sn is None or isinstance(sn, str):
+                    tags.append("env:snap-%s" % (sn or "none"))
+                elif "state" in model:
+                    installed = [e[1] for e in model["state"]["log"]] == [sn["prevE"][1], sn["lastE"][1]] and model["state"]["lastApplied"] == sn["lastE"][1] and [e[1] for e in st["log"]] != [sn["prevE"][1], sn["lastE"][1]]
+                    acked = any(o[0] == "send" and o[2]["t"] == "next" for o in model.get("out", []))
+                    tags.append("env:snap-installed" if installed else ("env:snap-kept" if acked else "env:snap-load-failed"))
+                    if any(o[0] == "cb" for o in model.get("out", [])) and installed:
+                        tags.append("env:snap-covered-callbacks")
+            else:
+                tags.append("env:regular")
     if op in ("submit", "recv_apply") and model.get("out"):
         tags.append("queue:full")
     return tags
 
 
 FLOORS = ["probe:unconfirmed", "probe:confirmed-exactly", "probe:confirmed-beyond", "send:pipelined", "op:send", "op:sendall", "op:check", "op:submit", "op:recv_apply", "op:recv_response", "op:leader_changed",
-          "op:fappend", "op:restore", "op:reapply", "op:journalfold", "op:capture", "batch:regular", "batch:chunked", "batch:heartbeat", "batch:snapshot",
+          "op:fappend", "op:restore", "op:reapply", "op:journalfold", "op:capture", "op:appendmsg", "env:stale-term", "env:term-adopted", "env:term-equal",
+          "env:role-0", "env:role-1", "env:role-2", "env:leader-same", "env:leader-none", "env:leader-changed",
+          "env:callbacks-leader-changed", "env:commit-raised", "env:commit-kept", "env:snap-none", "env:snap-notlast",
+          "env:snap-broken", "env:snap-installed", "env:snap-kept", "env:snap-covered-callbacks", "env:regular", "batch:regular", "batch:chunked", "batch:heartbeat", "batch:snapshot",
           "chunk:start", "chunk:process", "chunk:finish", "send:spin", "send:budget", "send:drop",
           "dispatch:appendLocal", "dispatch:appendRemote", "dispatch:denied", "dispatch:forward", "dispatch:notLeader",
           "dispatch:missingLeader", "gate:noop-unapplied", "gate:change-pending", "gate:change-cleared", "gate:open",
@@ -1049,11 +1237,14 @@ def build_cases(env, gen, ctx):
     cases += gen.sys_fappend()
     cases += gen.sys_member_misc()
     cases += gen.sys_start_capture()
+    cases += gen.sys_env()
     cases += gen.sys_send(ctx.scale(8, 1))
     for i in range(n_rnd):
         x = i % 10
         if i % 23 == 0:
             cases.append(gen.rnd_start_capture())
+        elif i % 7 == 0:
+            cases.append(gen.rnd_env())
         elif x < 4:
             cases.append(gen.rnd_send())
         elif x < 5:
